@@ -84,7 +84,7 @@ func run(args []string) {
 	if *depthOverride > 0 {
 		cdepth = *depthOverride
 	}
-	cp := c11.Params{Seed: seed, Kinds: "stage,comment,pull", KindsB: "comment,push"}
+	cp := c11.Params{Seed: seed, Kinds: "stage,comment,pull", KindsB: "comment,idmutateother,push"}
 	fmt.Fprintf(os.Stderr, "== C02: pulls through the cache with an operation pending (depth %d)\n", cdepth)
 	cres := xstate.Run(xstate.Config{Property: "C02", Model: "c11w", Params: cp.String(), MaxDepth: cdepth,
 		Deadline: time.Now().Add(cbudget), CrashIsViolation: true, Log: os.Stderr})
@@ -94,8 +94,10 @@ func run(args []string) {
 	}
 	sort.Slice(cres.Found, func(i, j int) bool { return len(cres.Found[i].Path) < len(cres.Found[j].Path) })
 	for _, fd := range cres.Found {
-		if fd.Oracle != "c11.builds-on-merge" && fd.Oracle != "crash" && !strings.HasPrefix(fd.Sig, "hang-or-panic/") {
-			continue // what the cache serves between pulls is C11's subject
+		identityAfterPull := fd.Oracle == "c11.coherent" && strings.HasSuffix(fd.Sig, "/after-pull") &&
+			(strings.HasPrefix(fd.Sig, "user-identity") || strings.HasPrefix(fd.Sig, "identity-"))
+		if fd.Oracle != "c11.builds-on-merge" && fd.Oracle != "crash" && !strings.HasPrefix(fd.Sig, "hang-or-panic/") && !identityAfterPull {
+			continue // what the cache serves between pulls is C11's subject; what it serves of an identity right after the pull that updated it is this one's
 		}
 		n := xstate.Reproductions("c11w", cp.String(), fd, 5)
 		rep.Report(evidence.Report{Oracle: strings.Replace(fd.Oracle, "c11.", "c02.cache.", 1), Sig: fd.Sig,
@@ -106,7 +108,7 @@ func run(args []string) {
 	cov["transitions"] = cov["transitions"].(int) + cres.Transitions
 	cov["traces_validated_against_impl"] = cov["transitions"]
 	cov["exhaustive"] = cov["exhaustive"].(bool) && cres.Exhaustive
-	cov["runs"] = append(cov["runs"].([]map[string]any), map[string]any{"configuration": "pulls through the cache with an operation pending (cache world of C11: A stage/comment/pull, B comment/push)",
+	cov["runs"] = append(cov["runs"].([]map[string]any), map[string]any{"configuration": "pulls through the cache with an operation pending (cache world of C11: A stage/comment/pull, B comment/idmutateother/push — B also gives A's own identity a new version)",
 		"params": cp, "max_depth": cdepth, "completed_depth": cres.CompletedDepth, "states": cres.States, "transitions": cres.Transitions, "new_states_per_depth": cres.PerDepth,
 		"probes_after_pull": cres.Tags["probe-edit-after-pull"]})
 	for _, s := range cres.Samples {
